@@ -1256,7 +1256,7 @@ func genLoopCase(t *rapid.T) LoopCase {
 
 func TestC03Loop(t *testing.T) {
 	vcore.Run(t, vcore.Config{Property: "C03", Inflight: true,
-		Rule: "real sync loop of one instance under the yield-point scheduler, a peer that publishes generated snapshots (native: timestamps interleaved with local ones, never equal; shadow: far in the past), native and shadow mode; a generated plan fires application commits (insert/overwrite/delete/new DBI/multi-key), peer deliveries and Store faults (< retry budget) at named yield points (12 points incl. between the end of an LMDB transaction and the following env.Info) or at the next yield, a third of the commits with the write transaction still open when the loop is released (it commits 2 ms later, while the loop waits for the lock); after EVERY yield the application-visible content must be the last-writer-wins winner of the application's last commit and the merged remote versions (C03); when the loop has been idle for two iterations the newest own snapshot must carry every application commit (C09); " +
+		Rule: "real sync loop of one instance under the yield-point scheduler, a peer that publishes generated snapshots (native: timestamps interleaved with local ones, never equal; shadow: far in the past), native and shadow mode; a generated plan fires application commits (insert/overwrite/delete/new DBI/multi-key), peer deliveries and Store faults (< retry budget) at named yield points (12 points incl. between the end of an LMDB transaction and the following env.Info) or at the next yield, a third of the commits with the write transaction still open when the loop is released (it commits 2 ms later, while the loop waits for the lock), a fifth started by whoever writes the k-th log line of the running loop (queueing for the write lock behind Lightning Stream's transaction where that line is written inside one, and committing the moment the lock is free); after EVERY yield the application-visible content must be the last-writer-wins winner of the application's last commit and the merged remote versions (C03); when the loop has been idle for two iterations the newest own snapshot must carry every application commit (C09); " +
 			"non-trivial = an application commit at a yield point other than sync.iter/before-sleep, followed by a merge"},
 		genLoopCase, checkLoopCase)
 }
@@ -1347,7 +1347,7 @@ func (e enumLoop) toCase() LoopCase {
 func TestC03Enum(t *testing.T) {
 	points := loopYieldPoints[:nMainPoints]
 	vcore.RunEnum(t, vcore.Config{Property: "C03", Inflight: true,
-		Rule: "fault enumeration over a fixed scenario (instance starts with two keys, a peer snapshot is merged, the application commits once, a later peer snapshot is merged, loop runs until idle): EVERY yield point (12 named ones + the inside of the upload's read transaction in native mode) x kind of application change {insert, overwrite, delete, new DBI, multi-key} x {native, shadow} x {peer snapshot is a no-op, or not} x {another application commit precedes so that the iteration also captures and uploads, or not} - this covers Lightning Stream write transactions that turn out empty and ones that do not; plus the same commit in a second life that still waits for its own snapshot (download failing three times), next to a tomb sweeper that runs every millisecond without ever finding anything, with a forced snapshot in every iteration, with the tomb sweeper configured and stale peer markers for the keys it touches, after a same-value rewrite (a recorded application transaction with nothing to capture), on a receive-only instance, and with the application's write transaction still open (holding the LMDB write lock) when the loop leaves the point, committing 2 ms later; C03 oracle after every yield, header transaction ids of everything Lightning Stream wrote since the previous yield (C14), C09 oracle when idle; commits that match the listed known finding (transaction id reuse after an empty LS transaction) are deferred to the next yield and counted; " +
+		Rule: "fault enumeration over a fixed scenario (instance starts with two keys, a peer snapshot is merged, the application commits once, a later peer snapshot is merged, loop runs until idle): EVERY yield point (12 named ones + the inside of the upload's read transaction in native mode) x kind of application change {insert, overwrite, delete, new DBI, multi-key} x {native, shadow} x {peer snapshot is a no-op, or not} x {another application commit precedes so that the iteration also captures and uploads, or not} - this covers Lightning Stream write transactions that turn out empty and ones that do not; plus the same commit in a second life that still waits for its own snapshot (download failing three times), next to a tomb sweeper that runs every millisecond without ever finding anything, with a forced snapshot in every iteration, with the tomb sweeper configured and stale peer markers for the keys it touches, after a same-value rewrite (a recorded application transaction with nothing to capture), on a receive-only instance, with the application's write transaction still open (holding the LMDB write lock) when the loop leaves the point, committing 2 ms later, and with the application's transaction started at the k-th log line (k in {0,1,2,3,5,8}) after the loop left the point, i.e. queued for the write lock behind an LS transaction in progress; C03 oracle after every yield, header transaction ids of everything Lightning Stream wrote since the previous yield (C14), C09 oracle when idle; commits that match the listed known finding (transaction id reuse after an empty LS transaction) are deferred to the next yield and counted; " +
 			"non-trivial = the commit fell between two LS transactions of one loop iteration"},
 		func(yield func(enumLoop) bool) {
 			for _, native := range []bool{true, false} {
